@@ -25,6 +25,7 @@ RULE = (
     'leaves. non-trivial = the tree has mixed dtypes or contains a class overriding out_structure (square/'
     'symmetric/orthogonal decorator, block, sum, composition, explicit index output).'
     ' Also: constructions the library normally refuses (strict diagonal that would change a leaf shape, non-square observation matrix): if accepted, out_structure() must equal the structure of mv\'s result.'
+    ' Also: block operators with 9-17 blocks (among them blocks of one class with different outputs); the scalar-with-axes borderline construction.'
 )
 ASSUMPTIONS = [
     'operator parameters no wider than the data dtype (stated in the property); float64 structures only with x64 on',
